@@ -211,7 +211,20 @@ func init() {
 	})
 	wrap("C01", func(c *Ctx) {
 		var calls []aliasCall
-		for _, d := range []date.Date{date.New(2024, 2, 29), date.New(1, 1, 1), date.New(9999, 12, 31), date.New(0, 6, 15), date.New(123456, 7, 8)} {
+		ds := []date.Date{date.New(2024, 2, 29), date.New(1, 1, 1), date.New(9999, 12, 31), date.New(0, 6, 15), date.New(123456, 7, 8)}
+		// five dates are a sample a table of pre-rendered texts (the current century, the first of each month …) walks past:
+		// the first and the last day of every month of one year, and 150 random dates of the years 1900 to 2100 and beyond
+		for m := 1; m <= 12; m++ {
+			ds = append(ds, date.New(1970+c.R.Intn(100), time.Month(m), 1), date.New(1970+c.R.Intn(100), time.Month(m), 28))
+		}
+		for i := 0; i < 150; i++ {
+			y := 1900 + c.R.Intn(201)
+			if i%5 == 0 {
+				y = c.R.Intn(20000) - 5000
+			}
+			ds = append(ds, date.New(y, time.Month(1+c.R.Intn(12)), 1+c.R.Intn(28)))
+		}
+		for _, d := range ds {
 			d := d
 			calls = append(calls, aliasCall{"Date.MarshalText " + d.String(), func() []byte { b, _ := d.MarshalText(); return b }},
 				aliasCall{"date.DefaultFormatter(nil) " + d.String(), func() []byte { b, _ := date.DefaultFormatter(nil, d, date.FormatBasic); return b }},
@@ -244,7 +257,24 @@ func init() {
 				aliasCall{fmt.Sprintf("Number(%d).String", uint64(n)), func() []byte { return []byte(n.String()) }},
 				aliasCall{fmt.Sprintf("json.Marshal(Number(%d))", uint64(n)), func() []byte { b, _ := json.Marshal(n); return b }})
 		}
+		// seven numbers are a sample a table of pre-rendered numerals (for a range of numbers) walks past: every number up to
+		// 1100 and 200 random ones up to 130,000 through MarshalText and the formatter, under the shipped DefaultFormat and
+		// once more under another one (the closures read it when they are called)
+		more := func(n roman.Number) {
+			calls = append(calls, aliasCall{fmt.Sprintf("Number(%d).MarshalText", uint64(n)), func() []byte { b, _ := n.MarshalText(); return b }},
+				aliasCall{fmt.Sprintf("roman.DefaultFormatter(nil, %d, DefaultFormat)", uint64(n)), func() []byte { b, _ := roman.DefaultFormatter(nil, n, roman.DefaultFormat); return b }})
+		}
+		for n := roman.Number(0); n <= 1100; n++ {
+			more(n)
+		}
+		for i := 0; i < 200; i++ {
+			more(roman.Number(c.R.Intn(130001)))
+		}
 		aliasRun(c, "C02.alias", calls)
+		func() {
+			defer ruSetDefaultFormat(roman.Format(1 + c.R.Intn(127)))()
+			aliasRun(c, "C02.alias", calls)
+		}()
 	})
 	wrap("C03", func(c *Ctx) {
 		var calls []aliasCall
@@ -260,7 +290,20 @@ func init() {
 	})
 	wrap("C05", func(c *Ctx) {
 		var calls []aliasCall
-		for _, id := range []uu.ID{{}, {Higher: 1<<64 - 1, Lower: 1<<64 - 1}, {Higher: 0x0123456789abcdef, Lower: 0xfedcba9876543210}} {
+		ids := []uu.ID{{}, {Higher: 1<<64 - 1, Lower: 1<<64 - 1}, {Higher: 0x0123456789abcdef, Lower: 0xfedcba9876543210}}
+		// and IDs a cache or a table could be keyed on: small ones, version-4 ones, 100 random ones
+		for i := 0; i < 100; i++ {
+			id := uu.ID{Higher: c.R.Next(), Lower: c.R.Next()}
+			switch i % 4 {
+			case 1:
+				id = uu.ID{Lower: uint64(c.R.Intn(300))}
+			case 2:
+				id.Higher = id.Higher&^0xf000 | 0x4000
+				id.Lower = id.Lower&^(3<<62) | 1<<63
+			}
+			ids = append(ids, id)
+		}
+		for _, id := range ids {
 			id := id
 			calls = append(calls, aliasCall{"ID.MarshalText " + id.String(), func() []byte { b, _ := id.MarshalText(); return b }},
 				aliasCall{"uu.DefaultFormatter(nil, URN) " + id.String(), func() []byte { b, _ := uu.DefaultFormatter(nil, id, uu.FormatURN); return b }},
